@@ -211,6 +211,7 @@ def main(scen_name, tier):
         jobs = scen.jobs(tier, seed)
         for j in jobs: j['opts_levels'] = list(opts); j['tier'] = tier
         random.Random(seed).shuffle(jobs)
+        jobs.sort(key=lambda j: -j.get('first', 0))        # (stable) configurations known to run long start first
         budget = scen.BUDGET[tier] if hasattr(scen, 'BUDGET') else (240 if tier == 'quick' else 3600)
         if os.environ.get('VERIF_BUDGET'): budget = int(os.environ['VERIF_BUDGET'])
         results, cut = run_pool(jobs, modules, scen_name, min(ncpu, max(1, len(jobs))), budget - (time.time() - t_start), getattr(scen, 'JOB_TIMEOUT', {}).get(tier, 600))
